@@ -78,6 +78,10 @@ def startLegal (sp : Option Nat) (f : Fib κ π) : Bool :=
 def iterRange (emp : π → Bool) (s e : Option κ) (sp : Option Nat) (f : Fib κ π) : Fib κ (Nat × π) :=
   rangeLoop (fun ip => emp ip.2) s e ((withPos f).drop (sp.getD 0))
 
+/-- `Fiber.__reversed__` (also reached through `Tensor.__reversed__`): every stored element, empty
+    ones included, in reversed storage order -/
+def reversedIter (f : Fib κ π) : Fib κ (Nat × π) := (withPos f).reverse
+
 /-- `getSavedPos()` after a complete traversal: `setSavedPos(i + j)` runs at every yield, but
     only when a `start_pos` was given -/
 def savedAfter (old : Nat) (sp : Option Nat) (ys : Fib κ (Nat × π)) : Nat :=
